@@ -182,6 +182,13 @@ def run(ck):
                 argv[f['idx']] = mut[f['idx']]
             argv += mut[nb:]
             toks += [f['name'], c]
+        # `--near-field` changes which results are computed by default (the near field only): the far-field angles and the
+        # radials are then not evaluated at all.  The composition rule speaks about inputs that are all evaluated, so both
+        # kinds of result are requested explicitly when a near-field cell is in the sample
+        if any(a.startswith('--near-field') for a in argv):
+            if not any(a.startswith('--option') for a in argv):
+                argv.append('--option=far-field')
+            argv.append('--option=near-field')
         o, det = fuzzcmd.outcome(argv, limit=60)
         want = d.ask('guard compose', *toks)
         done += 1
